@@ -10,6 +10,8 @@ import Proofs.Lemmas.CodecTable
 import Generated.C14Recursion
 import Generated.C14Input
 import Generated.C14Wrappers
+import Proofs.Lemmas.NumGuard
+import Generated.C14Numbers
 /-!
 # C14 — encoders are faithful and decoders total
 
@@ -572,6 +574,83 @@ theorem C14_json_text_producers :
     Generated.C14Wrappers.escapeHTML = ["false"] ∧
     Generated.C14Wrappers.validGates.lookup "UnmarshalValue" = some true ∧
     Generated.C14Wrappers.validGates.lookup "goJsonDecode" = some true := by obligation "C14_json_text_producers: JSON text is produced by something else than encoding/json, HTML escaping is not switched off, or a decode route lost its json.Valid gate"
+
+/-! ### The float → int step of the number decoders (`Model.NumGuard`)
+
+`convertJsonNumber` reads an int64 literal exactly and everything else through float64; the float becomes an int behind a
+range guard and an integrality test. `Generated.C14Numbers.floatToInt` lists every such conversion of the decoders with the
+guard as written (constants as the float64 they compare as: `math.MaxInt64` is `2^63`). Which float a text denotes is
+`strconv`'s — judged by the harness with exact arithmetic (`harness/c14/jsonnum.go`). -/
+section Numbers
+open Model.NumGuard
+
+/-- **A well-formed guard never wraps**: for every site whose lower test is `≥ c` with `c ≥ -2^63` (or `> c`, `c ≥ -2^63-1`),
+whose upper test is `< c` with `c ≤ 2^63` (or `≤ c`, `c < 2^63`) and which tests integrality, for every float (integral,
+fractional, ±Inf, NaN) and whatever the machine answers for a conversion outside int64: an int answer is the float's own
+value, and it is an int64. -/
+theorem C14_json_number_int_guard_sound (hw : Hw) (s : Site) (h : s.WF = true) (f : Fl) (n : Int)
+    (hc : s.convert hw f = .int n) : f = .int n ∧ InRange n := convert_sound hw h hc
+
+/-- **A tight guard loses nothing**: every integral float within int64 becomes that int. -/
+theorem C14_json_number_int_guard_complete (hw : Hw) (s : Site) (h : s.Tight = true) (n : Int) (hr : InRange n) :
+    s.convert hw (.int n) = .int n := convert_complete hw h hr
+
+/-- **`convertJsonNumber` as written**: the answer is the int `n` iff the text is the int64 literal `n`, or it is not an
+int64 literal and the float read from it is the integral float `n` with `-2^63 ≤ n < 2^63` — on every machine. -/
+theorem C14_json_number_decode_spec (hw : Hw) (lit : Option Int) (f : Fl) (n : Int) :
+    pinned.decode hw lit f = .int n ↔ lit = some n ∨ (lit = none ∧ f = .int n ∧ InRange n) := by
+  cases lit with
+  | some i => simp [Site.decode]
+  | none =>
+    simp only [Site.decode, false_or, true_and, reduceCtorEq]
+    constructor
+    · exact convert_sound hw pinned_wf
+    · rintro ⟨rfl, hr⟩
+      exact convert_complete hw pinned_tight hr
+
+example : pinned.decode amd64 none (.int 9223372036854775808) = .float (.int 9223372036854775808) := by decide
+example : pinned.decode amd64 none (.int (-9223372036854775808)) = .int (-9223372036854775808) := by decide
+example : pinned.decode arm64 none (.frac 9007199254740990) = .float (.frac 9007199254740990) := by decide
+example : pinned.decode amd64 (some 9007199254740993) (.int 9007199254740992) = .int 9007199254740993 := by decide
+
+/-- the seeded guard `f >= math.MinInt64 && f <= math.MaxInt64 && f == math.Trunc(f)`: `math.MaxInt64` compares as `2^63` -/
+def leBoundSite : Site := { lo := .ge (-9223372036854775808), hi := .le 9223372036854775808, integral := .trunc }
+
+/-- **Negation witness** (seeded change `C14-json-number-int-bound`): with `≤ 2^63` as the upper test the guard is not
+well-formed, and on *every* machine the float `2^63` is answered by an int that is not `2^63` (on amd64 by `-2^63`: the
+sign flips). The round-trip test alone (no range test) is no protection either: on a saturating machine `2^63` passes it
+and becomes `2^63 - 1`. -/
+theorem C14_json_number_le_bound_wraps :
+    leBoundSite.WF = false ∧
+    (∀ hw : Hw, ∃ n, leBoundSite.convert hw (.int 9223372036854775808) = .int n ∧ n ≠ 9223372036854775808) ∧
+    leBoundSite.convert amd64 (.int 9223372036854775808) = .int (-9223372036854775808) ∧
+    ({ lo := .none, hi := .none, integral := .cast } : Site).convert arm64 (.int 9223372036854775808)
+      = .int 9223372036854775807 := by
+  refine ⟨by decide, ?_, by decide, by decide⟩
+  intro hw
+  refine ⟨hw.conv 9223372036854775808, ?_, ?_⟩
+  · have : ¬ InRange 9223372036854775808 := by decide
+    simp [Site.convert, leBoundSite, Lo.holds, Hi.holds, Integral.holds, Fl.ge, Fl.le, toInt, this]
+  · have := hw.conv_range 9223372036854775808
+    unfold InRange maxIntP1 at this
+    omega
+
+/-- conversions without a range guard that are known and why they are harmless: `convertGoValue`'s `case float64` arm is
+dead — `goJsonDecode` decodes with `UseNumber`, every number arrives as a `json.Number` -/
+def knownUnguarded : List String := ["convertGoValue"]
+
+/-- **Obligation**: every float → int conversion of the decoders sits behind a well-formed guard (so
+`C14_json_number_int_guard_sound` applies to it), except the known dead arm; no unreadable bound. -/
+theorem C14_json_float_to_int_guards :
+    (Generated.C14Numbers.floatToInt.filter (fun s => !s.WF)).all (fun s => knownUnguarded.contains s.fn) = true ∧
+    Generated.C14Numbers.shapeNotes = [] := by obligation "C14_json_float_to_int_guards: a decoder converts a float64 to an int behind a guard that lets a value outside int64 through (an upper test `<=` against a constant that compares as 2^63 such as math.MaxInt64, a missing bound, no integrality test) — see Generated/C14Numbers.lean"
+
+/-- **Obligation**: the guard of `convertJsonNumber` is the one `Model.NumGuard.pinned` writes down (`≥ -2^63`, `< 2^63`,
+round-trip cast), i.e. `C14_json_number_decode_spec` is about the code. -/
+theorem C14_json_number_guard_is_model :
+    (Generated.C14Numbers.floatToInt.filter (fun s => s.lo != .none || s.hi != .none)).map (·.shape) = [pinned.shape] := by obligation "C14_json_number_guard_is_model: the range guard of convertJsonNumber (operators, constants as float64, integrality test) is no longer the one Model.NumGuard.pinned embodies"
+
+end Numbers
 
 end Tie
 
